@@ -356,7 +356,8 @@ theorem verify_signWith (cfg : Cfg) (cr : Crypto) (clock : Clock) (now t t' : In
     (hclock : ClockOK clock t t') (hlit : LitOK cfg.lit)
     (httl : cfg.ttl > 0 → -cfg.ttl ≤ now - t' ∧ now - t' ≤ cfg.ttl)
     (hid : Clean keyId) (hsc : ∀ s ∈ scopes, Clean s)
-    (hok : HeaderOK req2.headers) (hdate : hget req2.headers cfg.lit.date = clock.fmtTime t) :
+    (hok : HeaderOK req2.headers) (hdate : hget req2.headers cfg.lit.date = clock.fmtTime t)
+    (hq : req2.queryErr = false) :
     verify cfg cr clock now (signWith cfg cr clock keyId secret t scopes req2 (hashBodyVerify cfg cr body)) body = .ok () := by
   have hsh := signedHeadersOf_clean (cfg := cfg) hok
   have hsig : ∀ creq, ∀ c ∈ signature cfg.lit cr clock secret t scopes creq, isWs c = false ∧ c ≠ 44 := by
@@ -393,8 +394,9 @@ theorem verify_signWith (cfg : Cfg) (cr : Crypto) (clock : Clock) (now t t' : In
       canonQuery_none cfg.lit clock t' t _ (scopeString cfg.lit clock t scopes)]
     unfold canonHeadersOf at hcreq
     rw [hcreq]
-  unfold verify initFromSignedRequest
-  simp only [hauth, ne_eq, fmtAuth_ne_nil, not_false_eq_true, if_true, hinit]
+  unfold verify initFromSignedRequest initFromSignedRequestLax
+  simp only [hq] at hinit hexp
+  simp only [hq, Bool.false_eq_true, if_false, hauth, ne_eq, fmtAuth_ne_nil, not_false_eq_true, if_true, hinit]
   have hno : ¬ (cfg.ttl > 0 ∧ (now - t' < -cfg.ttl ∨ now - t' > cfg.ttl)) := by
     rintro ⟨h1, h2⟩
     have := httl h1
@@ -409,13 +411,13 @@ theorem verify_sign (cfg : Cfg) (cr : Crypto) (clock : Clock) (now t t' : Int) (
     (httl : cfg.ttl > 0 → -cfg.ttl ≤ now - t' ∧ now - t' ≤ cfg.ttl)
     (hid : Clean keyId) (hsc : ∀ s ∈ scopes, Clean s)
     (hok : HeaderOK req.headers) (hnone : hget req.headers cfg.lit.contentSha256 = [])
-    (hempty : cr.sha256hex [] = sha256Empty) :
+    (hempty : cr.sha256hex [] = sha256Empty) (hq : req.queryErr = false) :
     verify cfg cr clock now (sign cfg cr clock keyId secret t scopes req body) (some (body.getD [])) = .ok () := by
   obtain ⟨hbh, hok1⟩ := hashBodySign_spec cfg cr req.headers body hempty hnone hok hlit.content
   unfold sign
   simp only [hbh]
   exact verify_signWith cfg cr clock now t t' keyId secret scopes _ _ hstore hclock hlit httl hid hsc
-    (HeaderOK_hset _ _ hok1 hlit.date) (hget_hset_same _ _ _)
+    (HeaderOK_hset _ _ hok1 hlit.date) (hget_hset_same _ _ _) hq
 
 
 /-! ## what a successful `Verify` establishes -/
@@ -693,5 +695,109 @@ theorem expectedSignature_inj (cfg : Cfg) (cr : Crypto) (clock : Clock) (ctx : C
   have h := (List.cons.inj (List.append_cancel_left h)).2
   have h := (List.cons.inj (List.append_cancel_left h)).2
   exact hH h
+
+/-! ## the parser contract `NoLF`: checked per case by the judge, and what it rests on -/
+
+theorem noLFb_iff (req : Req) : noLFb req = true ↔ NoLF req := by
+  unfold noLFb
+  simp only [Bool.and_eq_true, Bool.not_eq_true', List.all_eq_true]
+  constructor
+  · rintro ⟨⟨⟨h1, h2⟩, h3⟩, h4⟩
+    refine ⟨by simpa using h1, by simpa using h2, by simpa using h3, ?_⟩
+    intro e he v hv
+    simpa using h4 e he v hv
+  · intro h
+    refine ⟨⟨⟨by simpa using h.method, by simpa using h.host⟩, by simpa using h.urlHost⟩, ?_⟩
+    intro e he v hv
+    simpa using h.values e he v hv
+
+/-- no line of `splitOn 10 raw` contains a line feed -/
+theorem splitOn_no_sep {c : UInt8} : ∀ {x s : Bytes}, s ∈ splitOn c x → c ∉ s
+  | [], s, hs => by
+    simp only [splitOn, List.mem_singleton] at hs
+    subst hs; simp
+  | y :: r, s, hs => by
+    simp only [splitOn] at hs
+    by_cases hy : y = c
+    · simp only [hy, if_true, List.mem_cons] at hs
+      rcases hs with rfl | hs
+      · simp
+      · exact splitOn_no_sep hs
+    · simp only [hy, if_false] at hs
+      cases heq : splitOn c r with
+      | nil => exact absurd heq (splitOn_ne_nil c r)
+      | cons hh t =>
+        rw [heq] at hs
+        simp only [List.mem_cons] at hs
+        have hmem : hh ∈ splitOn c r := by rw [heq]; simp
+        rcases hs with rfl | hs
+        · intro hm
+          rcases List.mem_cons.mp hm with e | hm
+          · exact hy e.symm
+          · exact splitOn_no_sep hmem hm
+        · exact splitOn_no_sep (by rw [heq]; exact List.mem_cons_of_mem _ hs)
+
+/-- **What `NoLF` rests on.** net/http reads the request head line by line (`textproto.Reader`: lines = the head split at
+LF; a continuation line is joined to the previous value with a space): every byte of the method, of `Host`, of the URL's
+host and of every header value is a byte of some line, or a space. Any such parser output satisfies `NoLF` — whatever the raw
+bytes were. -/
+theorem NoLF_of_line_parser (raw : Bytes) (req : Req)
+    (fromLines : ∀ (s : Bytes), (s = req.method ∨ s = req.host ∨ s = req.urlHost ∨ ∃ e ∈ req.headers, s ∈ e.2) →
+      ∀ c ∈ s, c = 32 ∨ ∃ l ∈ splitOn 10 raw, c ∈ l) : NoLF req := by
+  have key : ∀ s, (s = req.method ∨ s = req.host ∨ s = req.urlHost ∨ ∃ e ∈ req.headers, s ∈ e.2) → (10 : UInt8) ∉ s := by
+    intro s hs hm
+    rcases fromLines s hs 10 hm with h | ⟨l, hl, hc⟩
+    · exact absurd h (by decide)
+    · exact splitOn_no_sep hl hc
+  exact ⟨key _ (Or.inl rfl), key _ (Or.inr (Or.inl rfl)), key _ (Or.inr (Or.inr (Or.inl rfl))),
+    fun e he v hv => key v (Or.inr (Or.inr (Or.inr ⟨e, he, hv⟩)))⟩
+
+theorem mem_trimSpace {c : UInt8} {s : Bytes} (h : c ∈ trimSpace s) : c ∈ s :=
+  mem_trimLeft (mem_trimRight h)
+
+/-- header mode: the signed-header list is cut out of the Authorization header value, so it is LF-free for a `NoLF` request
+(the hypothesis `hsh` of `tamper_rejected` is needed for presigned URLs only, where it is a URL-decoded query value) -/
+theorem signedHeaders_no_lf_header_mode {lit : Literal} {clock : Clock} {req : Req} {ctx : Ctx}
+    (h : initFromHeader lit clock req = .ok ctx) (n : NoLF req) : (10 : UInt8) ∉ ctx.signedHeaders := by
+  have hv : (10 : UInt8) ∉ hget req.headers authHeader := by
+    unfold hget hvals
+    cases hl : lookup (canonKey authHeader) req.headers with
+    | none => simp
+    | some vs =>
+      cases vs with
+      | nil => simp
+      | cons v r => simpa using n.values _ (lookup_mem hl) v (by simp)
+  unfold initFromHeader at h
+  simp only at h
+  split at h
+  · cases h
+  · rename_i alg rest hsf
+    have hrest : (10 : UInt8) ∉ rest := by
+      obtain ⟨e, _⟩ := splitFirst_eq_some.mp hsf
+      intro hm
+      exact hv (by rw [e]; simp [hm])
+    split at h
+    · cases h
+    · split at h
+      · rename_i p0 p1 p2 hparts
+        have hp1 : (10 : UInt8) ∉ p1 := fun hm => hrest (mem_splitOn (by rw [hparts]; simp) hm)
+        split at h
+        · cases h
+        · split at h
+          · cases h
+          · split at h
+            · cases h
+            · rename_i sh hsh
+              split at h
+              · cases h
+              · split at h
+                · cases h
+                · split at h
+                  · cases h
+                  · cases h
+                    have := stripPrefix_eq_some.mp hsh
+                    intro hm
+                    exact hp1 (mem_trimSpace (by rw [this]; exact List.mem_append_right _ hm))
+      · cases h
 
 end EgVerif.Signer
